@@ -89,8 +89,9 @@ def shipped_scenarios() -> List[Tuple[str, Dict[str, Any]]]:
 # ---------------------------------------------------------------------------------------
 
 
-def inventory_traces(label: str, cfg: Dict[str, Any], origin: str) -> Tuple[List[Dict[str, Any]], Optional[Any]]:
-    """Build the scenario and return one trace per node + one for the network level."""
+def inventory_traces(label: str, cfg: Dict[str, Any], origin: str, game=None) -> Tuple[List[Dict[str, Any]], Optional[Any]]:
+    """Build the scenario (or take the game the environment built from it) and return one trace per node + one for the
+    network level."""
     from primaite.game.game import PrimaiteGame
 
     stim = {"scenario": label, "origin": origin}
@@ -99,7 +100,8 @@ def inventory_traces(label: str, cfg: Dict[str, Any], origin: str) -> Tuple[List
     except Exception as ex:  # noqa  - a file this transcription cannot read is outside the family
         raise RuntimeError(f"declaration flattener failed on {label}: {type(ex).__name__}: {ex}") from ex
     try:
-        game = PrimaiteGame.from_config(copy.deepcopy(cfg))
+        if game is None:
+            game = PrimaiteGame.from_config(copy.deepcopy(cfg))
     except Exception as ex:  # noqa
         tr = {"cfg": {"scenario": label, "host": rc.NET, "type": "", "scope": "net"},
               "ev": [_ev("Raised", exc=type(ex).__name__)],
@@ -114,6 +116,46 @@ def inventory_traces(label: str, cfg: Dict[str, Any], origin: str) -> Tuple[List
                        "ev": [_ev("Built", declared=d, built=b)],
                        "meta": {"scenario": label, "host": h, "type": ntype}, "stimulus": stim})
     return traces, game
+
+
+def files_say(d: Path, ep: int) -> Dict[str, Any]:
+    """What the files of an episode-scheduled directory say for episode `ep` (the documented composition: the listed
+    variation files followed by the base scenario, one YAML document; agent lists flattened), read independently of
+    primaite's scheduler."""
+    import yaml
+
+    sch = yaml.safe_load((d / "schedule.yaml").read_text())
+    entries = sch["schedule"]
+    keys = sorted(entries)
+    files = entries[keys[ep % len(keys)]]
+    cfg = yaml.safe_load("\n".join([(d / f).read_text() for f in files] + [(d / sch["base_scenario"]).read_text()]))
+    flat = []
+    for a in cfg.get("agents", []):
+        flat += a if isinstance(a, list) else [a]
+    cfg["agents"] = flat
+    return cfg
+
+
+def env_schedule_traces(d: Path, episodes: int) -> List[Dict[str, Any]]:
+    """The environment's own path: PrimaiteGymEnv over an episode-scheduled directory, reset through `episodes`
+    episodes (past the end of the schedule, where it wraps around); the simulation of every episode against what the
+    files say for it."""
+    from primaite.session.environment import PrimaiteGymEnv
+
+    out: List[Dict[str, Any]] = []
+    env = PrimaiteGymEnv(env_config=str(d))
+    try:
+        for ep in range(episodes):
+            if ep:
+                env.reset(seed=ep)
+            trs, _ = inventory_traces(f"env/{d.name}#episode{ep}", files_say(d, ep), "environment", game=env.game)
+            out += trs
+    finally:
+        try:
+            env.close()
+        except Exception:  # noqa
+            pass
+    return out
 
 
 def pair_traces(label: str, cfg: Dict[str, Any], variants: List[str], steps: int, seed: int, origin: str,
@@ -732,6 +774,19 @@ def main(tier: str, seed: int) -> int:
         big = not small
         pair_jobs.append((label, cfg, variants[:2] if big else variants, steps, seed + 1, "shipped"))
         n_pairs_shipped += 1
+    # 3b. the environment's own path over the episode-scheduled directories, past the end of the schedule
+    import yaml as _yaml
+
+    n_env_eps = 0
+    for d in [x for x in sorted(scenarios.PKG.iterdir()) if x.is_dir() and (x / "schedule.yaml").exists()]:
+        n = len(_yaml.safe_load((d / "schedule.yaml").read_text())["schedule"])
+        big = "uc7" in d.name
+        eps = (5 if big else n + 3) if not thorough else (n + 3)
+        etr = env_schedule_traces(d, eps)
+        n_env_eps += eps
+        traces += _restrict_node_set_traces(files_say(d, 0), etr, notes)
+        chk.add_case({"scenario": f"env/{d.name}", "episodes": eps})
+    chk.cov["environment_episodes_of_scheduled_directories"] = n_env_eps
     mark("shipped")
     chk.cov["shipped_scenarios_stepped_under_reordering"] = n_pairs_shipped
     chk.cov["shipped_and_asset_scenarios_validated"] = n_scen
